@@ -383,11 +383,28 @@ static void run_program(const char *id, uint32_t seed, const char *src) {
     opt_gc = 0;
     printf("S %s %d %d %d %ld %ld %ld\n", id, geo_wrapped, geo_full_wrapped, geo_maxcap, n_collections, n_heap_payloads, n_payload_reads);
     printf("P %s %s R=%s %s\n", id, verdict, rbuf, lg);
-    int dirty = strcmp(verdict, "ok") != 0 || janet_atomic_load(&janet_vm.listener_count) != 0
+    /* A run that ended in a deadlock (loop idle for ever: run queue empty, no timer) leaves nothing behind in the VM but
+     * the reference count of its suspended fibers; the fibers themselves are garbage once unrooted below.  Anything else
+     * (pending tasks or timers, livelock, compile error) gets a fresh VM. */
+    int idle_clean = !strcmp(verdict, "idle-forever") && janet_vm.spawn.head == janet_vm.spawn.tail && janet_vm.tq_count == 0
+                     && janet_vm.root_fiber == NULL;
+    if (idle_clean) {
+        janet_vm.listener_count = 0;
+        /* the abandoned fibers are still listed as live tasks (a GC root): forget them */
+        for (int i = 0; i < nfib; i++) if (fib[i]) janet_table_remove(&janet_vm.active_tasks, janet_wrap_fiber(fib[i]));
+        if (janet_vm.active_tasks.count != 0) idle_clean = 0;
+    }
+    int dirty = (strcmp(verdict, "ok") != 0 && !idle_clean) || janet_atomic_load(&janet_vm.listener_count) != 0
                 || janet_vm.spawn.head != janet_vm.spawn.tail || janet_vm.tq_count != 0;
     for (int i = 0; i < nfib; i++) if (fib[i]) janet_gcunroot(janet_wrap_fiber(fib[i]));
     for (int i = 0; i < nch; i++) if (chs[i]) janet_gcunroot(janet_wrap_abstract(chs[i]));
     janet_gcunroot(janet_wrap_table(env));
+    {   /* whatever a run may leave behind in the VM (the cfun registry grows with every janet_cfuns call, ...) is
+         * bounded by starting from a fresh VM every 128 programs */
+        static int since_init = 0;
+        if (++since_init >= 128) dirty = 1;
+        if (dirty) since_init = 0;
+    }
     if (dirty) {
         /* abandoned suspended fibers keep the loop's reference count up: start from a fresh VM */
         janet_deinit();
